@@ -27,13 +27,23 @@ func init() {
 			c.Set("ref", string(ref))
 			c.Tag("reference-with-gaps")
 		}
-		if r.Chance(1, 40) {
-			// a target whose `updown list` row is longer than 64 KiB (the default bufio.Scanner token): every site differs
-			w := r.Range(11000, 14000)
+		if r.Chance(1, 25) {
+			// a target whose `updown list` row is longer than 64 KiB (the default bufio.Scanner token), or than a few KiB
+			// (any block a writer might batch rows in): every site differs; half of the time the second query is such a
+			// row as well, behind a short one
+			w := r.PickInt([]int{r.Range(900, 1500), r.Range(2000, 3000), r.Range(11000, 14000)})
 			ref := randSeq(r, w, symACGT, false)
 			var qs, ts []string
 			for i := 0; i < 2; i++ {
 				qs = append(qs, mutateSeq(r, ref, symACGT, 1, 400, false))
+			}
+			if r.Bool() {
+				b := []byte(ref)
+				for j := range b {
+					b[j] = r.Pick(strings.ReplaceAll(symACGT, string(b[j]), ""))
+				}
+				qs[1] = string(b)
+				c.Tag("long-query-row-behind-a-short-one")
 			}
 			nt := r.Range(3, 6)
 			for i := 0; i < nt; i++ {
